@@ -49,6 +49,8 @@ pub assume_specification[ str::eq_ignore_ascii_case ](a: &str, b: &str) -> (r: b
 // `String == &str` compares the texts
 pub assume_specification<'a>[ <String as PartialEq<&'a str>>::eq ](a: &String, b: &&str) -> (r: bool)
     ensures r == (a@ == b@);
+pub assume_specification<'a>[ <String as PartialEq<&'a str>>::ne ](a: &String, b: &&str) -> (r: bool)
+    ensures r == (a@ != b@);
 pub assume_specification<'a>[ <&'a str as PartialEq<String>>::eq ](a: &&'a str, b: &String) -> (r: bool)
     ensures r == (a@ == b@);
 pub assume_specification[ <String as PartialEq<str>>::eq ](a: &String, b: &str) -> (r: bool)
